@@ -317,19 +317,16 @@ open Gen.Policy in
 that are not shared yet -/
 def sufficient (a : Gen.Policy.Access) : Bool := a.ctor || (if a.write then a.mode == 2 else a.mode ≥ 1)
 
-/-- the accesses recorded as finding F10b (function, field): reads of a guarded field before / without the lock -/
-def knownUnguarded : List (String × String) :=
-  [("LogGroupInfo.SetLogWeight", "LogWeights"), ("LogGroupInfo.GetSubmissionSession", "LogWeights"),
-   ("Proxy.AddPreChain", "dist"), ("Proxy.AddChain", "dist"), ("ProxyServer.HandleInfo", "dist"),
-   ("LogListManager.ProduceClientLogList", "latestLL")]
+/-- **lock_table_guarded**: in the regenerated table of every access to a mutex-guarded field of `LogGroupInfo`,
+`Distributor`, `Proxy`, `safeSubmissionState`, `LogListManager`, `logListRefresherImpl`, every access outside the
+constructors holds its guard: `Lock` for a write, `RLock` or `Lock` for a read. (Before the fix commit 69f2a9b six
+accesses did not — finding F10b: `GetSubmissionSession` / `SetLogWeight` on `LogWeights`, `Proxy.AddChain` /
+`AddPreChain` / `ProxyServer.HandleInfo` on `dist`, `ProduceClientLogList` on `latestLL` — and this theorem did not
+check.) With `lockset`, conflicting accesses to these fields are ordered by the guard. -/
+theorem lock_table_guarded : ∀ a ∈ Gen.Policy.lockTable, sufficient a = true := by decide
 
-/- FULL: `∀ a ∈ Gen.Policy.lockTable, sufficient a = true` — false on the unchanged tree (finding F10b: the six
-   accesses of `knownUnguarded`); it becomes provable by `decide` once fixes/C17-1.diff is applied. -/
-/-- **lock_table_partial**: in the regenerated table of every access to a mutex-guarded field of `LogGroupInfo`,
-`Distributor`, `Proxy`, `safeSubmissionState`, `LogListManager`, `logListRefresherImpl`, every access holds its
-guard in a sufficient mode, except the accesses listed in `knownUnguarded`. -/
-theorem lock_table_partial :
-    ∀ a ∈ Gen.Policy.lockTable, sufficient a = false → (a.fn, a.field) ∈ knownUnguarded := by decide
+example : 30 ≤ (Gen.Policy.lockTable.filter (fun a => !a.ctor)).length ∧
+    (Gen.Policy.lockTable.filter (fun a => !a.ctor && a.write)).length ≥ 10 := by decide
 
 /-- every write to a guarded field of the submission state machine itself happens under `mu` -/
 theorem submission_state_fully_guarded :
